@@ -552,7 +552,7 @@ func absData(bz []byte) string {
 
 func outcomeOf(d string) string {
 	switch d {
-	case "ok", "ok1", "ok2":
+	case "ok", "ok1", "ok2", "oksent":
 		return "ok"
 	case "async", "async1", "async2":
 		return "async"
@@ -682,6 +682,9 @@ func (w *World) installApps() {
 				w.appWrite(ctx, fmt.Sprintf("v2/%d", seq), idx, absV2Data(pl))
 				switch outcomeOf(absV2Data(pl)) {
 				case "ok":
+					if absV2Data(pl) == "oksent" {
+						return channeltypesv2.RecvPacketResult{Status: channeltypesv2.PacketStatus_Success, Acknowledgement: channeltypesv2.ErrorAcknowledgement[:]}
+					}
 					return channeltypesv2.RecvPacketResult{Status: channeltypesv2.PacketStatus_Success, Acknowledgement: v2AppAck(ackOfPayload(absV2Data(pl)))}
 				case "async":
 					return channeltypesv2.RecvPacketResult{Status: channeltypesv2.PacketStatus_Async}
